@@ -3,7 +3,7 @@
    word of the SCHEMA's content model (unbounded length), feeding the word one child at a time succeeds at every step,
    the final check passes, and the schema-ordered view is the word.  Refutations on M_py for the other types. *)
 From MX Require Import Spec.Particle Spec.Deriv Spec.Equiv Gen.Names Gen.Schema Gen.Templates Gen.Lib Model.Tables
-  Model.AbsSeq Model.AbsSeqC02 Model.Classes Model.SeqMachine Model.AbsBag Model.PyM Model.PyObs.
+  Model.AbsSeq Model.AbsSeqC02 Model.Classes Model.SeqMachine Model.ChoiceSeq Model.ChoiceClass Model.ChoiceC02 Model.AbsBag Model.PyM Model.PyObs.
 From Coq Require Import List String Bool.
 Import ListNotations.
 
@@ -36,6 +36,22 @@ Proof.
   apply (C02_bag l a mn w B L).
 Qed.
 Print Assumptions C02_partial_bag.
+
+(* choice machine: the eight exclusive-choice types; for EVERY word of the schema's content model *)
+Theorem C02_partial_choice : forall key x l t w, In (key, Some x, Some l) cm_rows -> is_cseq l = true -> slots_of l = Some t -> forallb c02_ok t = true ->
+  Lang (re_of x) w ->
+  Forall (fun o => o = MOk) (couts (cminit t) (map MAdd w)) /\ cverdict_ok (cmrun t (map MAdd w)) = true /\
+  AbsSeq.names (cordered (ctree (cmrun t (map MAdd w)))) = w /\ map snd (cins (cmrun t (map MAdd w))) = w.
+Proof.
+  intros key x l t w I Cs St G L. destruct (is_cseq_nodup l t Cs St) as [W ND].
+  apply (proj1 (cm_row_sound key x l (forallb_In _ _ _ cm_rows_ok I))) in L. apply (slots_of_lang l t St) in L.
+  apply C02_cmachine; auto.
+Qed.
+Print Assumptions C02_partial_choice.
+(* every is_cseq template of today's library satisfies the side condition (distinct names per slot, no branch that can be empty) *)
+Example C02_choice_premises : forallb (fun r => match snd r with Some l => negb (is_cseq l) || match slots_of l with Some t => forallb c02_ok t | None => false end | None => true end) cm_rows = true
+  /\ List.length (filter (fun r => match snd r with Some l => is_cseq l | None => false end) cm_rows) = 8%nat.
+Proof. vm_compute. auto. Qed.
 
 (* non-vacuity: real templates satisfy the premises, with a non-trivial word *)
 Example C02_nonvacuous : Classes.is_seq tpl_Barline = true /\ Classes.is_seq tpl_Pitch = true /\ is_bag tpl_Measure = true /\
